@@ -108,7 +108,8 @@ Inductive op :=
 | OLoad (c : list N)
 | OLoadBad
 | OBoot (c : list N)
-| OInstall (c : list N)
+| OInstall (c : list N) (segs : list (list N * N))
+                         (* install of a sender's chain: full snapshot c plus the WAL files of its un-reaped incrementals *)
 | OReap
 | ORestart.
 
@@ -167,11 +168,13 @@ Definition step_gen (clear : bool) (s : st) (o : op) : st * N :=
       (* Noop through the log, swap, SetDueNext(Full), Snapshot(1) *)
       let s1 := set_full (set_dbf (add_log s ENoop) (cells_of_vec c) []) true in
       snapshot_step clear s1 POk
-  | OInstall c =>
-      (* sink.Close of the incoming snapshot (clears FULL_NEEDED), then fsmRestore *)
+  | OInstall c segs =>
+      (* sink.Close of the incoming snapshot (database + WAL files in one full snapshot directory; clears
+         FULL_NEEDED), then fsmRestore of it *)
       let d := cells_of_vec c in
-      let s1 := set_full (set_snaps s (SFull (applied s) d [] :: snaps s)) false in
-      let s2 := set_dbf s1 d [] in
+      let ws := map (fun '(ks, v) => map (fun k => (k, v)) ks) segs in
+      let s1 := set_full (set_snaps s (SFull (applied s) d ws :: snaps s)) false in
+      let s2 := set_dbf s1 (apply_segs d ws) [] in
       (if clear then set_staging s2 [] else s2, 0)
   | OReap =>
       match snaps s with
@@ -202,6 +205,7 @@ Record obs := {
   o_res : N;                        (* 0 done, 1 nothing to snapshot, 3 load rejected, 7 checkpoint blocked *)
   o_staged : N;
   o_cat : list (bool * N * N);      (* newest first: is-full, index (number of log entries covered), WAL files *)
+  o_chain : list (N * N);           (* resolved WAL files of the newest snapshot, in replay order *)
   o_full : bool;
   o_restored : list N;
   o_rebuilt : list N;
@@ -214,8 +218,18 @@ Definition cat_of (x : snap) : bool * N * N :=
   | SInc i ws => (false, i, N.of_nat (length ws))
   end.
 
+(* the WAL files ResolveFiles returns for the newest snapshot, in replay order, each named by the snapshot it
+   belongs to (0 = newest, 1 = the one before ...) and its position inside that snapshot *)
+Definition labels (depth : N) (n : nat) : list (N * N) := map (fun j => (depth, N.of_nat j)) (seq 0 n).
+Fixpoint chain_labels (l : list snap) (depth : N) : list (N * N) :=
+  match l with
+  | [] => []
+  | SFull _ _ ws :: _ => labels depth (length ws)
+  | SInc _ ws :: r => chain_labels r (depth + 1) ++ labels depth (length ws)
+  end.
+
 Definition observe (s : st) (res : N) : obs :=
-  {| o_res := res; o_staged := N.of_nat (length (staging s)); o_cat := map cat_of (snaps s); o_full := full_needed s;
+  {| o_res := res; o_staged := N.of_nat (length (staging s)); o_cat := map cat_of (snaps s); o_chain := chain_labels (snaps s) 0; o_full := full_needed s;
      o_restored := dump_opt (restored s); o_rebuilt := dump_opt (rebuilt s); o_live := dump (live s) |}.
 
 Fixpoint list_eqb {A} (f : A -> A -> bool) (a b : list A) : bool :=
@@ -230,6 +244,7 @@ Definition cat_eqb (a b : bool * N * N) : bool :=
 
 Definition obs_eqb (a b : obs) : bool :=
   (o_res a =? o_res b) && (o_staged a =? o_staged b) && list_eqb cat_eqb (o_cat a) (o_cat b)
+  && list_eqb (fun x y => (fst x =? fst y) && (snd x =? snd y)) (o_chain a) (o_chain b)
   && Bool.eqb (o_full a) (o_full b) && list_eqb N.eqb (o_restored a) (o_restored b)
   && list_eqb N.eqb (o_rebuilt a) (o_rebuilt b) && list_eqb N.eqb (o_live a) (o_live b).
 
